@@ -565,6 +565,10 @@ func c16EventString(a *An, evStr, opStr *ssa.Function) {
 			}
 			p := stripIDs(v.Ctx.path(arg))
 			verb := vs[i][len(vs[i])-1]
+			// a precision cuts the rendered text short (%.13s, %-13.13s): distinct values would render alike
+			if strings.Contains(vs[i], ".") {
+				ws = append(ws, sprintf("%s: verb %s has a precision, which truncates what it renders", pos, vs[i]))
+			}
 			switch {
 			case p == "recv.Name":
 				order(1, "the name")
